@@ -943,8 +943,9 @@ class GameCoordinator:
             # the name is chosen by the agent: keep the file name a valid, bounded name inside `location`
             safe_name = re.sub(r"[^\w.-]", "-", str(agent_name))[:48]
             if safe_name != agent_name:
-                safe_name = f"{safe_name}-{get_str_hash(str(agent_name))[:8]}"
+                safe_name = f"{safe_name}-{get_str_hash(ascii(agent_name))[:8]}"
             filename = os.path.join(location, f"{datetime.now():%Y-%m-%d}_{safe_name}_{agent_role}.jsonl")
-            with jsonlines.open(filename, "a") as writer:
+            # plain json.dumps escapes what cannot be written as UTF-8 (a name with a lone surrogate)
+            with jsonlines.open(filename, "a", dumps=json.dumps) as writer:
                 writer.write(self._agent_trajectories[agent_addr])
             self.logger.info(f"Trajectory of {agent_addr} strored in {filename}")
